@@ -139,8 +139,15 @@ func (o *OpenAPI3Importer) convertSpec(spec *openapi3.T) (string, error) {
 	for _, k := range methodDisplayOrder {
 		endpoints[k] = nil
 	}
-	for path, ep := range spec.Paths.Map() {
-		meps, err := o.buildEndpoint(path, ep)
+	// paths and methods are visited in a fixed order: the numbering of array-parameter aliases depends on it
+	paths := spec.Paths.Map()
+	pathNames := make([]string, 0, len(paths))
+	for path := range paths {
+		pathNames = append(pathNames, path)
+	}
+	sort.Strings(pathNames)
+	for _, path := range pathNames {
+		meps, err := o.buildEndpoint(path, paths[path])
 		if err != nil {
 			return "", err
 		}
@@ -576,7 +583,8 @@ func (o *OpenAPI3Importer) buildEndpoint(path string, item *openapi3.PathItem) (
 		return nil, err
 	}
 
-	for method, op := range ops {
+	for _, method := range methodDisplayOrder {
+		op := ops[method]
 		if op == nil {
 			continue
 		}
@@ -756,12 +764,29 @@ func (o *OpenAPI3Importer) buildParams(params openapi3.Parameters) (Parameters, 
 		// Avoid putting sequences into the params
 		if a, ok := p.Field.Type.(*Array); ok {
 			// name is the Sysl-safe form for a query parameter: the query string refers to the alias as {name}
-			p.Field.Type = o.types.AddAndRet(&Alias{baseType: baseType{name: name}, Target: a})
+			p.Field.Type = o.types.AddAndRet(&Alias{baseType: baseType{name: o.arrayParamAliasName(name, a)}, Target: a})
 		}
 		p.Optional = !item.Value.Required
 		out.Add(p)
 	}
 	return out, nil
+}
+
+// arrayParamAliasName names the alias that stands for an array-typed parameter: the parameter's name, unless an
+// alias of that name already stands for a different array type, as happens when two operations have a parameter of
+// the same name. Then a numbered name is used, so that neither operation ends up with the other's item type.
+func (o *OpenAPI3Importer) arrayParamAliasName(name string, target *Array) string {
+	aliasName := name
+	for i := 2; ; i++ {
+		existing, found := o.types.Find(aliasName)
+		if !found {
+			return aliasName
+		}
+		if al, ok := existing.(*Alias); ok && reflect.DeepEqual(al.Target, target) {
+			return aliasName
+		}
+		aliasName = fmt.Sprintf("%s_%d", name, i)
+	}
 }
 
 type mediaTypeFieldType uint8
